@@ -318,6 +318,13 @@ func runC06(c *h.Ctx) {
 			v.blind = b
 			doVerifyRequest(c, "blind-shapes", v)
 		}
+		// blinds congruent to the right one modulo the group order (b + N, b + 2N, b + 255N): other byte strings, hence
+		// other blinding factors — the request key is NOT the client key blinded with them
+		for _, k := range []int64{1, 2, 255} {
+			v = base
+			v.blind = new(big.Int).Add(new(big.Int).SetBytes(blind), new(big.Int).Mul(big.NewInt(k), N)).Bytes()
+			doVerifyRequest(c, "blind-shapes:congruent-mod-order", v)
+		}
 		// ciphertext lengths at and beyond the 16-bit length prefix (65535 is the longest request with a wire form)
 		for _, n := range []int{65535, 65536, 65537, 70000, 131072} {
 			v = base
